@@ -40,8 +40,12 @@ func (g *fileGen) randString(max int) string {
 	var out []byte
 	n := 1 + g.rng.Intn(max)
 	for len(out) < n {
-		if g.rng.Intn(5) == 0 && len(out)+2 <= n {
+		if r := g.rng.Intn(12); r <= 1 && len(out)+2 <= n {
 			out = append(out, []byte(string(rune(0xE0+g.rng.Intn(30))))...)
+		} else if r == 2 && len(out)+3 <= n {
+			out = append(out, []byte(string(rune(0x20A0+g.rng.Intn(30))))...) // 3 bytes
+		} else if r == 3 && len(out)+4 <= n {
+			out = append(out, []byte(string(rune(0x1F600+g.rng.Intn(60))))...) // 4 bytes
 		} else {
 			out = append(out, byte('A'+g.rng.Intn(50)))
 		}
@@ -67,7 +71,8 @@ func (g *fileGen) randTime(local bool) time.Time {
 		if secs+int64(off) < 1 || secs+int64(off) > 0xFFFFFFFE {
 			off = 0
 		}
-		t = t.In(time.FixedZone("FITLOCAL", off))
+		// the zone's name carries no information: only its offset is encoded
+		t = t.In(time.FixedZone([]string{"FITLOCAL", "", "CET", "UTC", "local"}[g.rng.Intn(5)], off))
 	}
 	return t
 }
